@@ -1,7 +1,7 @@
 (** Dispatch table of the correspondence checks: property number, then the
     lab kind tag that leads every case input. *)
 From Coq Require Import List ZArith Bool.
-From TR Require Import Lib.Sx Run.C12 Run.Eng Run.Doc Run.Pol Run.Drv Run.Par.
+From TR Require Import Lib.Sx Run.C12 Run.Eng Run.Doc Run.Pol Run.Drv Run.Par Run.Iso.
 Import ListNotations.
 Open Scope Z_scope.
 
@@ -15,5 +15,6 @@ Definition check (prop : Z) (inp impl : sx) : sx :=
        | 3 | 4 | 5 | 6 => check_pol prop inp impl
        | 7 => check_drv prop inp impl
        | 8 | 9 | 10 | 11 | 12 => check_par prop inp impl
+       | 13 | 14 => check_iso prop inp impl
        | _ => badcase
        end.
